@@ -8,6 +8,7 @@
 # the original terms are equal (congruence: equal arguments give equal results).  A failed residual says nothing
 # about the original pair; the caller then falls back to the full query.
 import random
+import time
 from . import terms as T
 
 
@@ -40,6 +41,7 @@ class Congruence:
         self.residual = []       # (value_a, value_b)
         self.resset = set()
         self.failed = False
+        self.deadline = None
 
     def _init_evals(self, vals, pc=()):
         self._init_evals0(list(vals) + [c for c, v in pc])
@@ -119,6 +121,8 @@ class Congruence:
         r = self.memo.get(k)
         if r is not None:
             return r
+        if self.deadline is not None and time.time() > self.deadline:
+            raise TimeoutError('congruence walk budget exceeded')
         r = self._eqv(a, b)
         self.memo[k] = r
         return r
@@ -324,18 +328,25 @@ class Congruence:
         return False
 
 
+WALK_BUDGET_S = 90
+
+
 def reduce_pairs(pairs, seed=0, pc=()):
     """returns (ok, residual_pairs). ok=False: simulation found a difference or structure could not be matched."""
     diff = [(g, e) for g, e in pairs if g != e]
     if not diff:
         return True, []
     c = Congruence(seed)
-    c._init_evals([x for p in diff for x in p], pc)
-    if not c.evals:
-        return False, []
-    for g, e in diff:
-        if not c.eqv(g, e):
+    c.deadline = time.time() + WALK_BUDGET_S
+    try:
+        c._init_evals([x for p in diff for x in p], pc)
+        if not c.evals:
             return False, []
+        for g, e in diff:
+            if not c.eqv(g, e):
+                return False, []
+    except TimeoutError:
+        return False, []
     return True, c.residual
 
 
